@@ -143,6 +143,10 @@ StringDictionaryXBW::StringDictionaryXBW(IteratorDictString *it) {
 }
 
 unsigned long StringDictionaryXBW::locate(uchar *str, uint strLen) {
+  // The empty string is never a member (the root-only path matches every node)
+  if (strLen == 0)
+    return NORESULT;
+
   uchar *qry = new uchar[strLen + 1];
   qry[0] = 0;
   strncpy((char *)qry + 1, (char *)str, strLen);
